@@ -3,7 +3,7 @@ import patgen
 import scanner
 
 
-def gen_program(rng, nrules=None, trailing=False, max_scs=2, csize=None, caseins=None, depth=None, bol_pct=20):
+def gen_program(rng, nrules=None, trailing=False, max_scs=2, csize=None, caseins=None, depth=None, bol_pct=20, bars=0):
     csize = csize or (256 if rng.chance(85) else 128)
     caseins = rng.chance(15) if caseins is None else caseins
     nsc_extra = rng.weighted([(0, 6), (1, 3), (2, 2)]) if max_scs else 0
@@ -45,6 +45,9 @@ def gen_program(rng, nrules=None, trailing=False, max_scs=2, csize=None, caseins
             if patgen.nullable(r['head']):
                 r['trail'] = None
         rules.append(r)
+    for i, r in enumerate(rules[:-1]):
+        if bars and rng.chance(bars):
+            r['bar'] = True
     return {'csize': csize, 'caseins': caseins, 'scs': scs, 'rules': rules}
 
 
